@@ -771,6 +771,15 @@ func (g *Gen) bigBuildCase(mode int) {
 		g.emit("q post %s body %s ex=nil fl=111 ops=N,N,N,A500,N,N,A1015,%s,A%d,N,N,N", s, hx([]byte(term)), tail, nd-3)
 		g.emit("q post %s body %s ex=nil fl=000 ops=%s", s, hx([]byte(term)), g.nexts(nd+1))
 	}
+	// lists whose cardinality and whose count of non-excluded hits lie on different sides of 1024
+	// (the chunking is that of the cardinality, whatever is excluded)
+	var exA []int
+	for d := 0; d < nd-1000; d++ {
+		exA = append(exA, 2*d+1)
+	}
+	g.emit("q post %s body %s ex=%s fl=111 ops=N,N,A%d,N,N,A%d,N,N,A%d,N,N", s, hx([]byte("a")), intList(exA), 2*(nd-1000)+7, 1018, nd-3)
+	g.emit("q post %s body %s ex=%d,%d fl=111 ops=N,N,A%d,N,N,A%d,N,N", s, hx([]byte("f")), nd-1025, nd-2, nd-500, nd-4)
+	g.emit("q post %s body %s ex=%d fl=111 ops=N,A%d,N,N", s, hx([]byte("b")), nd-1024, nd-3)
 	g.emit("q dict %s body aut=all lo=* hi=* probe=-", s)
 	g.st("bigbuild")
 }
@@ -889,6 +898,11 @@ func (g *Gen) genC03(n int) error {
 		if i == 7 {
 			g.emit("cfg dvchunk=1024")
 			g.trailingEmptyDvChunkCase()
+			g.st("case")
+			continue
+		}
+		if i%40 == 9 {
+			g.dvWalkCase()
 			g.st("case")
 			continue
 		}
@@ -1071,6 +1085,14 @@ func (g *Gen) genC04(n int) error {
 			w2 := g.fresh("w")
 			g.emit("writeto %s %s bufio=%d", s, w2, []int{16, 64, 512, 4095, 4096, 16384}[g.r.Intn(6)])
 			g.emit("cmpfile %s %s", f, w2)
+		}
+		if i%3 == 0 {
+			// streamed into an *os.File that already holds a longer piece of other content and stands
+			// at its end: the segment is appended, what was written before stays
+			w5 := g.fresh("w")
+			g.emit("writeto %s %s osfile=1", s, w5)
+			g.emit("cmpfile %s %s", f, w5)
+			g.st("writeto.osfile")
 		}
 		g.emit("footer %s mode=%d docs=%d", f, g.curMode, len(b.Docs))
 		o := g.fresh("o")
@@ -1305,8 +1327,8 @@ func (g *Gen) bigMergeCase() {
 	if g.forceBigVariant > 0 {
 		nth = g.forceBigVariant - 1
 	}
-	if nth < 6 {
-		mode = []int{1026, 1026, 1025, 1026, 1026, 1026}[nth]
+	if nth < 7 {
+		mode = []int{1026, 1026, 1025, 1026, 1026, 1026, 1026}[nth]
 	}
 	g.curMode = mode
 	g.emit("cfg chunkmode=%d", mode)
@@ -1323,6 +1345,12 @@ func (g *Gen) bigMergeCase() {
 		// that leave fewer than 1024 of them (the input is read through a list whose live count and
 		// whose cardinality lie on different sides of 1024)
 		sizes = []int{1100 + g.r.Intn(300)}
+	}
+	if nth == 6 {
+		// 7th big merge of a run: ONE big input with exactly 1024 survivors, and behind it a small input
+		// that alone has a doc-value field: that field's first document is number 1024 of the output,
+		// the first of the second doc-value chunk (built below, after the big one)
+		sizes = []int{1030}
 	}
 	if nth == 4 {
 		// 5th big merge of a run: in front of ONE big input (its frequent terms in 1030 documents, 10 of
@@ -1387,11 +1415,27 @@ func (g *Gen) bigMergeCase() {
 		g.newBuilt(s, b)
 		segs = append(segs, s)
 	}
+	if nth == 6 {
+		b := &BatchSpec{Name: g.fresh("b")}
+		for d := 0; d < 4; d++ {
+			id := []byte(fmt.Sprintf("%s-%d", b.Name, d))
+			doc := DocSpec{ID: id, Plain: true}
+			doc.Fields = append(doc.Fields, FieldSpec{Kind: "fld", Name: "_id", Typ: 't', Stored: true, Len: 1, Val: id, Toks: []TokSpec{{Term: id, Freq: 1}}})
+			doc.Fields = append(doc.Fields, FieldSpec{Kind: "fld", Name: "body", Typ: 't', Len: 2, DV: true, Toks: []TokSpec{{Term: []byte("common"), Freq: 1}, {Term: []byte("zzz"), Freq: 1}}})
+			doc.Fields = append(doc.Fields, FieldSpec{Kind: "fld", Name: "rare", Typ: 't', Len: 1, DV: true, Toks: []TokSpec{{Term: []byte(fmt.Sprintf("r%d", d)), Freq: 1}}})
+			b.Docs = append(b.Docs, doc)
+		}
+		g.emitBatch(b)
+		s := g.fresh("s")
+		g.emit("build %s %s", s, b.Name)
+		g.newBuilt(s, b)
+		segs = append(segs, s)
+	}
 	var drops []string
 	total := 0
 	// 1st and 3rd big merge of a run: deletions take the survivors below 1024; 2nd: few deletions, so that a
 	// term of every document stays above 1024 while its neighbour in the next field has a handful of hits
-	crossing := ((g.chance(0.7) && nth != 1) || nth == 0 || nth == 2 || nth == 5) && nth != 3 && nth != 4
+	crossing := ((g.chance(0.7) && nth != 1) || nth == 0 || nth == 2 || nth == 5) && nth != 3 && nth != 4 && nth != 6
 	fewDrops := nth == 1
 	for _, s := range segs {
 		nd := g.ndocs[s]
@@ -1413,6 +1457,12 @@ func (g *Gen) bigMergeCase() {
 			// 4th big merge of a run: EXACTLY 1024 survivors, every one of them with the term "common"
 			// (1024 is the first cardinality that takes two chunks in the cardinality-dependent mode)
 			xs = []int{5, 100, 333}
+		}
+		if nth == 6 {
+			xs = nil
+			if nd > 100 {
+				xs = []int{0, 1, 2, 3, 4, 5}
+			}
 		}
 		if nth == 4 {
 			if nd > 100 {
@@ -1443,6 +1493,14 @@ func (g *Gen) bigMergeCase() {
 	m := g.fresh("m")
 	g.emit("open %s %s", m, f)
 	g.emit("q count %s", m)
+	if nth == 6 {
+		stn := g.fresh("st")
+		for _, d := range []int{1023, 1024, 1025, 1027, 0, 1026} {
+			g.emit("q dv %s %s fields=%s doc=%d", m, stn, strList([]string{"body", "rare"}), d)
+		}
+		g.emit("q dv %s %s fields=%s doc=%d", m, g.fresh("st"), strList([]string{"rare"}), 1024)
+		g.st("bigmerge.lateDvField")
+	}
 	for _, term := range []string{"common", "even"} {
 		g.emit("q post %s body %s ex=nil fl=111 ops=%s", m, hx([]byte(term)), g.nexts(total+1))
 		g.emit("q post %s body %s ex=nil fl=100 ops=A%d,N,A%d,N,N,A%d,N", m, hx([]byte(term)), total/3, total/2, total-2)
@@ -1763,6 +1821,10 @@ func (g *Gen) genC07(n int) error {
 	// postings of merged segments that span several chunks: the big input behind small ones that lack
 	// the field / the terms (read with Next and Advance, with and without exclusions)
 	g.forceBigVariant = 5
+	g.bigMergeCase()
+	// ... and one in which a field's first term, the empty one, has a handful of hits while the term
+	// written just before it (the last of the previous field) has more than 1024
+	g.forceBigVariant = 2
 	g.bigMergeCase()
 	g.forceBigVariant = 0
 	return nil
